@@ -190,7 +190,11 @@ def classify_failure(res, tx, start, status, detail, segs=()):
     detail["bit_exact_frames"] = bit_exact
     detail["carrier_flag_held_from_before_start_through_100_frames"] = locked_all
     costs = [c for _, _, c in sf[:100]]
-    if locked_all and len(sf) >= 100 and bit_exact == 0 and costs and sorted(costs)[len(costs) // 2] < 80:
+    bit_exact_first100 = sum(1 for _, h, _ in sf[:100] if h in set(tx["frames"]))
+    detail["bit_exact_among_first_100_callbacks"] = bit_exact_first100
+    # the symptom of the recorded finding: carrier flag held, at least 100 frames handed up, none of the first 100 is a frame of
+    # the transmission, their median Viterbi cost is below the coasting limit (whether or not reception recovers much later)
+    if locked_all and len(sf) >= 100 and bit_exact_first100 == 0 and costs and sorted(costs)[len(costs) // 2] < 80:
         detail["median_cost_of_first_100_callbacks"] = sorted(costs)[len(costs) // 2]
         gap = gap_after_earlier_tx(segs)
         detail["gap_after_earlier_transmission_samples"] = gap
